@@ -50,6 +50,28 @@ Theorem C13_rebase_input_cases :
 Proof. exact conv_confirmed_cases. Qed.
 Print Assumptions C13_rebase_input_cases.
 
+(** A transaction rebased on its own: whether its ephemeral inputs are assigned depends only on
+    what the applied blocks of the path create, not on whether the creating transaction is part
+    of the set (V2TransactionSet passes the caller's transaction alone). *)
+Theorem C13_rebase_child_alone :
+  ∀ U gen t from to out,
+    sane U → update_proofs U gen [t] from to = ROk out →
+    ∃ rev app, reorg_path U gen max_rebase from to = inr (rev, app) ∧
+      (a_id t ∈ confirmed_on U app → out = []) ∧
+      (a_id t ∉ confirmed_on U app → out = [map_ins (conv_confirmed (created_on U app)) t]).
+Proof. exact rebase_child_alone. Qed.
+Print Assumptions C13_rebase_child_alone.
+
+(** non-vacuity: the parent is confirmed on the path and is not in the set; the child's input
+    takes the created element's leaf, exactly as when the parent is in the set *)
+Theorem C13_rebase_child_alone_example :
+  update_proofs exRU2 (0, 1) [tC] (0, 1) (1, 2) =
+    ROk [ATx 3 true [AIn 104 RSpend 3 true 0] [108] 1 10 0 100 false] ∧
+  update_proofs exRU2 (0, 1) [tB; tC] (0, 1) (1, 2) =
+    ROk [ATx 3 true [AIn 104 RSpend 3 true 0] [108] 1 10 0 100 false].
+Proof. exact rebase_child_alone_ex. Qed.
+Print Assumptions C13_rebase_child_alone_example.
+
 (** Errors: an unknown basis, a proof that does not verify against the basis, and a path that
     cannot be determined (longer than the bound, or through an unknown header) are rejected
     with the corresponding error; a result is only returned for a path within the bound; and
